@@ -58,6 +58,14 @@ def gen(rng, tier):
                                 {"op": "up"}, S(1000)],
                       "start_up": True, "keepsafe_ms": 0, "connbuf": 1000, "iobuf": 4096, "spoolbuf": 10000, "pace_us": 200,
                       "file_bytes": 1000000, "spool_sleep_us": 500})
+        # the endpoint accepts and stops reading, the writer blocks inside a socket write, then the connection is reset and a
+        # reading endpoint takes over: nothing is dropped anywhere (buffers sized for all of it), so every line must arrive,
+        # the one the writer was holding included
+        nl = 12000
+        cases.append({"steps": [{"op": "mode", "m": "blackhole"}, {"op": "up"}, {"op": "wait_online"}, S(nl), {"op": "sleep", "n": 600},
+                                {"op": "down"}, {"op": "mode", "m": "read"}, {"op": "up"}],
+                      "start_up": False, "keepsafe_ms": 0, "connbuf": nl + 1000, "iobuf": rng.choice([1024, 4096]), "spoolbuf": 20000, "pace_us": 0,
+                      "file_bytes": 1000000, "spool_sleep_us": 10, "size": 400})
         for start_up, steps in scheds:
             cases.append({"steps": steps, "start_up": start_up, "spool_sleep_us": rng.choice([10, 10, 500]), "keepsafe_ms": rng.choice([0, 300]), "connbuf": rng.choice([10, 100, 1000]),
                           "iobuf": rng.choice([4096, 65536]), "spoolbuf": rng.choice([100, 10000]), "pace_us": rng.choice([50, 100, 100, 0]),
